@@ -1014,7 +1014,7 @@ func runKernelScenario(sc Scenario, out *bufio.Writer) {
 	// (derr != nil: the scheduler released the monitor to take a control message and it never reached its next gate)
 	if gated && !k.monExited && !k.ctxDone && (derr == nil && monAt == "mon.select" && k.steps < 4*maxSteps(sc) || derr != nil && monAt == "") {
 		for _, pn := range procs {
-			if k.curKind[pn] == "enable" && !s.done[pn] && !k.cancelled[pn] && s.At(pn) == "" {
+			if at := s.At(pn); k.curKind[pn] == "enable" && !s.done[pn] && !k.cancelled[pn] && (at == "" || at == "api.ctl.await") {
 				enStalled = append(enStalled, pn+" at "+s.At(pn))
 			}
 		}
